@@ -41,7 +41,7 @@ func (r *rawRef) start(c *harness.Ctx) {
 		var off int64
 		for _, w := range r.plan {
 			if w.PauseMs > 0 {
-				time.Sleep(msec(w.PauseMs))
+				c.S.Sleep(msec(w.PauseMs))
 			}
 			if w.Size == 0 {
 				continue
@@ -538,7 +538,7 @@ func runC14(c *harness.Ctx) {
 			}
 			refHandshake(refConn, !realIsClient, sent, magic, padField)
 			// keep the link open; the real side must decide by itself
-			time.Sleep(2 * time.Minute)
+			c.S.Sleep(2 * time.Minute)
 		})
 		c.S.Run(func() bool { return dialDone || wrapDone }, 90*time.Second)
 		c.Reached, c.Nontrivial = true, true
